@@ -27,6 +27,8 @@ func init() {
 		Phases: []core.Phase{
 			{Name: "bytes", Build: "pristine", Fn: c03RunBytes, CrashIsViolation: true},
 			{Name: "values", Build: "pristine", Fn: c03RunValues, CrashIsViolation: true},
+			{Name: "calls", Build: "pristine", Fn: c03RunCalls, CrashIsViolation: true},
+			{Name: "integer-extremes", Build: "pristine", Fn: c03RunExtremes, CrashIsViolation: true},
 			{Name: "nesting", Build: "pristine", Fn: c03RunNesting, CrashIsViolation: true, ProcsFn: func(tier string) int { return len(c03NestingItems(tier == "thorough")) }},
 		},
 		Judge: c03Judge,
@@ -375,6 +377,68 @@ func c03RunValues(r *core.Run) {
 	}
 }
 
+// c03RunCalls: the whole built-in call space of C02 (every function x argument counts x typed alphabet, literal and
+// document delivery) under the crash oracle.
+func c03RunCalls(r *core.Run) {
+	n := 0
+	docCache := map[string]any{}
+	for _, name := range ref.FunctionNames() {
+		c02Calls(name, r.Thorough(), func(c c02Call) {
+			n++
+			if !r.Mine(n) || r.Expired() {
+				return
+			}
+			d, ok := docCache[c.Doc]
+			if !ok {
+				d = core.JSONDoc(c.Doc)
+				if len(docCache) < 50000 {
+					docCache[c.Doc] = d
+				}
+			}
+			if strings.HasPrefix(name, "pad_") && (strings.Contains(c.Expr, "2147483648") || strings.Contains(c.Expr, "9007199254740993") || strings.Contains(c.Expr, "922337203685477580") ||
+				strings.Contains(c.Doc, "2147483648") || strings.Contains(c.Doc, "9007199254740993") || strings.Contains(c.Doc, "922337203685477580")) {
+				return // a pad width of astronomic magnitude legitimately demands a result of that size
+			}
+			r.Add("states", 1)
+			r.Begin(map[string]any{"expr": c.Expr, "doc": c.Doc})
+			o := core.Search(c.Expr, d)
+			r.Eval(o)
+			r.Add("transitions", 1)
+			if k := c03Outcome(o); k != "" {
+				r.Violate(&core.Violation{Sig: "C03/" + k + "/calls/" + c.Shape, Desc: fmt.Sprintf("Search(%q, %s)", c.Expr, c.Doc),
+					Point: map[string]any{"expr": c.Expr, "doc": c.Doc, "kind": "call"}, Expected: "returns a result or an error", Actual: o.Short()})
+			}
+		})
+	}
+	r.Bound("builtin_calls", n)
+}
+
+// c03RunExtremes: the integer-magnitude space of C09 (every slice/index/find/replace/split/pad parameter over the 64-bit
+// range, enormous numeric text) under the crash oracle, on the pristine build.
+func c03RunExtremes(r *core.Run) {
+	n := 0
+	c09MagnitudeSpace(func(family, expr, spec string) {
+		n++
+		if !r.Mine(n) || r.Expired() {
+			return
+		}
+		d, docText := c09Doc(spec)
+		if strings.Contains(expr, "pad_left('a', x)") {
+			return // the pad width is the enormous number itself
+		}
+		r.Add("states", 1)
+		r.Begin(map[string]any{"expr": expr, "doc": docText})
+		o := core.Search(expr, d)
+		r.Eval(o)
+		r.Add("transitions", 1)
+		if k := c03Outcome(o); k != "" {
+			r.Violate(&core.Violation{Sig: "C03/" + k + "/integer-extremes/" + family, Desc: fmt.Sprintf("Search(%q, %s)", trunc(expr, 100), docText),
+				Point: map[string]any{"expr": expr, "doc": docText, "kind": "extreme", "spec": spec}, Expected: "returns a result or an error", Actual: o.Short()})
+		}
+	})
+	r.Bound("integer_extreme_points", n)
+}
+
 // ---------------------------------------------------------------------------
 // nesting families
 
@@ -492,6 +556,21 @@ func c03Judge(r *core.Run, phase string, pt map[string]any) *core.Violation {
 			if v.Name == name {
 				return c03ValuePoint(r, e, v, placement)
 			}
+		}
+		return nil
+	}
+	if pstr(pt, "kind") == "extreme" {
+		d, _ := c09Doc(pstr(pt, "spec"))
+		o := core.Search(e, d)
+		if k := c03Outcome(o); k != "" {
+			return &core.Violation{Sig: "C03/" + k + "/integer-extremes", Desc: "Search", Point: pt, Expected: "returns a result or an error", Actual: o.Short()}
+		}
+		return nil
+	}
+	if pstr(pt, "kind") == "call" {
+		o := core.Search(e, core.JSONDoc(pstr(pt, "doc")))
+		if k := c03Outcome(o); k != "" {
+			return &core.Violation{Sig: "C03/" + k + "/calls", Desc: "Search", Point: pt, Expected: "returns a result or an error", Actual: o.Short()}
 		}
 		return nil
 	}
